@@ -252,7 +252,7 @@ CHECKS["C06"] = dict(
          "PCT-style schedules are judged event by event by TwrContractTrace.tla: every accepted message reaches the synchronous writer exactly once, in "
          "enqueue order, with the producer's bytes, under the process lock; queue access only under the message lock; error return <=> nothing queued; the "
          "file equals the one the synchronous writer produces from the accepted calls. TwrTrace.tla checks that each recorded run is a behaviour of Twr.tla "
-         "with identical outputs (deviation is reported as MODEL-DRIFT).",
+         "with identical outputs (deviation is reported as MODEL-DRIFT). Real threads: harness/twr_tsan_drv.c (2-4 producer threads, 2 KiB queue, drop on / off) runs on the library built with ThreadSanitizer; every distinct data-race report is a violation (supporting dynamic check for the clause the one-thread-at-a-time scheduler cannot observe).",
     design_ref="DESIGN.md section 6 C06, section 12",
     note="Trusted: TLC; the scheduler shim and the observation wraps in harness/twr_drv.c. Grain: interleavings at synchronisation operations only (sequential "
          "consistency between them); the unlocked reads of flush_processed_id / quit are not examined at instruction level. No run on free-running threads.",
